@@ -79,7 +79,8 @@ class DtdMapper:
         attr_type = cls.build_attribute_type(target, attribute)
         attr = Attr(
             name=attribute.name,
-            namespace=target.ns_map.get(attribute.prefix),
+            # An attribute without a prefix is in no namespace, the default doesn't apply
+            namespace=target.ns_map.get(attribute.prefix) if attribute.prefix else None,
             tag=Tag.ATTRIBUTE,
             types=[attr_type],
         )
